@@ -158,7 +158,8 @@ class Ctx(Acc):
         for entry, cases in known.items():
             print(f'KNOWN-FINDING: property={self.pid} {entry} ({len(cases)} case(s) this run)')
         seen = set()
-        rdir = os.path.join(VERIF, 'replays', self.pid)
+        alt = os.environ.get('VERIF_EVIDENCE_DIR')
+        rdir = os.path.join(alt, 'replays', self.pid) if alt else os.path.join(VERIF, 'replays', self.pid)
         n_new = 0
         for case, msg in new:
             d = digest(case)
@@ -202,7 +203,7 @@ class Ctx(Acc):
         ev = dict(property_id=self.pid, tier=self.tier, seed=self.seed, level=self.mod.LEVEL,
                   coverage=cov, assumptions=list(self.mod.ASSUMPTIONS), wall_s=round(wall, 2),
                   violations=n_new)
-        path = os.path.join(VERIF, 'evidence', self.pid + '.json')
+        path = os.path.join(alt or os.path.join(VERIF, 'evidence'), self.pid + '.json')
         os.makedirs(os.path.dirname(path), exist_ok=True)
         with open(path, 'w') as f:
             json.dump(ev, f, indent=1, sort_keys=True)
